@@ -46,6 +46,7 @@ func genC09(t *rapid.T) c09Case {
 		Nested:           rapid.Bool().Draw(t, "tnested"),
 		Names:            rapid.Bool().Draw(t, "tnames"),
 		Deep:             rapid.IntRange(0, 3).Draw(t, "tdeep") == 0,
+		Long:             rapid.IntRange(0, 5).Draw(t, "tlong") == 0,
 		NoCollectorArr:   knownActive(c09KCollector),
 		NoMixinDisorder:  knownActive(c09KMixin),
 		NoQuoteColonName: knownActive(c09KJSONName),
